@@ -1,5 +1,6 @@
 //@unit swma
 //@include head.rs
+//@export-begin
 
 // descending weights: Σ (len - j) * s[j] (oldest has weight len, newest weight 1)
 pub open spec fn dsum(s: Seq<R>) -> real decreases s.len() {
@@ -162,5 +163,6 @@ impl Method for SWMA {
 	}
 //@end
 }
+//@export-end
 } // verus!
 fn main() {}
